@@ -1,4 +1,42 @@
-/-! Line-protocol driver for property C19 (stub until the model exists). -/
+import CprocVerif.Model.Util
+
+/-! Line-protocol driver for property C19 (growable buffers of util.c / scan.c).
+
+State = one `struct array` and one `struct buffer`, both initially `{0}`.  One output line per input line:
+* `new`        → `ok`            (both back to `{0}`)
+* `add <n>`    → `<off> <len> <cap>`   `arrayadd(&a, n)`: offset of the fresh bytes, new len, new cap
+* `buf`        → `<off> <len> <cap>`   `bufadd(&b, c)`
+* `bufreset`   → `ok`            (`b.len = 0`, what `bufget` does after copying)
+* anything else → `bad-op`
+-/
+open CprocVerif.Util
+
+def step (s : Arr × Arr) (line : String) : (Arr × Arr) × String :=
+  match line.trimAscii.toString.splitOn " " with
+  | ["new"] => ((⟨0, 0⟩, ⟨0, 0⟩), "ok")
+  | ["add", n] =>
+    match n.toNat? with
+    | some k =>
+      let r := arrayadd s.1 k
+      ((r.1, s.2), s!"{r.2} {r.1.len} {r.1.cap}")
+    | none => (s, "bad-op")
+  | ["buf"] =>
+    let r := bufadd s.2
+    ((s.1, r.1), s!"{r.2} {r.1.len} {r.1.cap}")
+  | ["bufreset"] => ((s.1, { s.2 with len := 0 }), "ok")
+  | _ => (s, "bad-op")
+
+partial def loop (stdin stdout : IO.FS.Stream) (s : Arr × Arr) : IO Unit := do
+  let line ← stdin.getLine
+  if line.isEmpty then
+    return ()
+  let (s', out) := step s line
+  stdout.putStrLn out
+  loop stdin stdout s'
+
 def main (_args : List String) : IO UInt32 := do
-  IO.eprintln "drv_c19: no model yet"
-  return 2
+  let stdin ← IO.getStdin
+  let stdout ← IO.getStdout
+  loop stdin stdout (⟨0, 0⟩, ⟨0, 0⟩)
+  stdout.flush
+  return 0
